@@ -34,3 +34,27 @@ Definition fxp_dot (fx fy : fmt) (xs ys : list Z) (r : rmode) (o : omode) : outc
   let fz := dot_fmt fx fy (Z.of_nat (length xs)) in
   let prods := map (fun p => fst p * snd p) (combine xs ys) in
   bind (reduce_store fz r o [sum_i64 true prods]) (fun w => Ok (fz, w)).
+
+(* cumprod (functions.py cumprod): the k-th running product has k * n_frac fraction bits; the result keeps
+   n * n_frac of them, so the k-th raw product is multiplied by 2^((n - k) * n_frac).  The word: the larger of
+   n * n_word and (two sign positions when signed) + the largest k * (n_word - sign) + (n - k) * n_frac, k in {1, n}. *)
+Definition cumprod_fmt (f : fmt) (n : Z) : fmt :=
+  let s := sbit f in
+  {| sg := sg f;
+     nw := Z.max (n * nw f) (2 * s + Z.max ((nw f - s) + n * nf f - nf f) (n * (nw f - s)));
+     nf := n * nf f |}.
+(* np.cumprod(x.val) (int64 / uint64, wrapping) times the array of conversion factors (an int64 array of Python
+   integers: int64 * int64 wraps, uint64 * int64 is promoted to float64) *)
+Fixpoint cumprod_codes (signed : bool) (nfr n k acc : Z) (l : list Z) : list mval :=
+  match l with
+  | [] => []
+  | c :: t => let p := acc_wrap signed (acc * c) in
+              let fct := 2^((n - k) * nfr) in
+              (if signed then MI (wrap_i64 (p * fct)) else MF (f64_mul (f64_of_Z p) (f64_of_Z fct)))
+              :: cumprod_codes signed nfr n (k + 1) p t
+  end.
+Definition fxp_cumprod (f : fmt) (l : list Z) (r : rmode) (o : omode) : outcome (fmt * wres) :=
+  let n := Z.of_nat (length l) in let fz := cumprod_fmt f n in
+  if (nf f <? 0) || (64 <=? nw fz) || (63 <=? (n - 1) * nf f) then Unmodelled    (* (object-array variants are not modelled) *)
+  else bind (arr_of (cumprod_codes (sg f) (nf f) n 1 1 l)) (fun av =>
+       bind (set_val_real fz r o true (fst av) (snd av)) (fun w => Ok (fz, w))).
